@@ -80,9 +80,31 @@ Definition chk_case (c : jcase) : bool :=
 Definition model_results (c : jcase) : list result :=
   let '(g, d, t0, tr) := c in List.map snd (run g d (init t0) (List.map fst tr)).
 
+(* ---- short names for the strings that recur in generated case files (harness/drv_C16.py CONST) *)
+Definition k_aud := PS "aud".
+Definition s_c1 := PS "client_1".
+Definition s_c2 := PS "client_2".
+Definition s_r1 := PS "https://client_1.example.com/cb".
+Definition s_r2 := PS "https://client_2.example.com/cb".
+Definition s_email := PS "email".
+Definition s_code := PS "code".
+Definition s_op := PS "https://example.com/".
+Definition s_jws := PS "<JWS>".
+Definition s_es256 := PS "ES256".
+Definition s_hs256 := PS "HS256".
+Definition s_rs384 := PS "RS384".
+Definition s_in0 := PS "in0".
+Definition s_out0 := PS "out0".
+Definition s_doc0 := PS "https://client_1.example.com/ro/0".
+(* a genuine, untampered object: the signature covers exactly the header algorithm and the claims that travel *)
+Definition wgen (alg : pystr) (claims : params) (k : nat) : wobj :=
+  WObj alg claims (Some {| s_key := k; s_alg := alg; s_claims := claims |}).
+Definition wsig (alg : pystr) (claims : params) (k : nat) (salg : pystr) (sclaims : params) : wobj :=
+  WObj alg claims (Some {| s_key := k; s_alg := salg; s_claims := sclaims |}).
+
 (* ---- compact cases: the static part of the observed configuration (key jar, redirect URIs and response types
    of the clients) is given once per shard, the variable part per case *)
-Definition cfgvar := (bool * bool * list meth * bool * list hook * list hook * list pystr * bool * Z
+Definition cfgvar := (bool * bool * list meth * bool * list hook * list hook * option (list pystr) * bool * Z
                       * list (pystr * regalg * option (list pystr)))%type.
 Definition ccase := (cfgvar * docs * Z * list (op * obs))%type.
 Definition cbase := list (pystr * list pystr * list (list pystr)).
@@ -91,14 +113,14 @@ Fixpoint find_base (b : cbase) (cid : pystr) : list pystr * list (list pystr) :=
   | [] => ([], [])
   | (c, red, rts) :: r => if str_eqb cid c then (red, rts) else find_base r cid
   end.
-Definition expand (j : list (pystr * list (kty * nat))) (b : cbase) (v : cfgvar) : cfg :=
+Definition expand (j : list (pystr * list (kty * nat))) (b : cbase) (dp : list pystr) (v : cfgvar) : cfg :=
   let '(o, hp, ms, mc, hs, phs, pa, rus, t, cl) := v in
   {| oidc := o; has_par := hp; methods := ms; methods_configured := mc; hooks := hs; par_hooks := phs;
-     prov_algs := pa; ru_supported := rus; ttl := t; jar := j;
+     prov_algs := match pa with Some l => l | None => dp end; ru_supported := rus; ttl := t; jar := j;
      clients := List.map (fun e => let '(cid, reg, rus') := e in
                                    let '(red, rts) := find_base b cid in
                                    {| c_id := cid; c_reg := reg; c_redirect := red; c_request_uris := rus'; c_rtypes := rts |}) cl |}.
-Definition chk_compact (j : list (pystr * list (kty * nat))) (b : cbase) (c : ccase) : bool :=
-  let '(v, d, t0, tr) := c in chk_case (expand j b v, d, t0, tr).
-Definition diag_compact (j : list (pystr * list (kty * nat))) (b : cbase) (c : ccase) : list result :=
-  let '(v, d, t0, tr) := c in model_results (expand j b v, d, t0, tr).
+Definition chk_compact (j : list (pystr * list (kty * nat))) (b : cbase) (dp : list pystr) (c : ccase) : bool :=
+  let '(v, d, t0, tr) := c in chk_case (expand j b dp v, d, t0, tr).
+Definition diag_compact (j : list (pystr * list (kty * nat))) (b : cbase) (dp : list pystr) (c : ccase) : list result :=
+  let '(v, d, t0, tr) := c in model_results (expand j b dp v, d, t0, tr).
